@@ -39,6 +39,10 @@ pub struct Shared {
     pub slow: bool,
     /// async only: poll_shutdown was called (the write half is closed: every later write fails, as on a socket)
     pub shut: bool,
+    /// async only: every other poll_flush reports not-ready (a buffering transport under back-pressure); a connection that never
+    /// flushes inside read() never notices
+    pub slow_flush: bool,
+    pub flush_calls: u64,
     pub nap: Option<Pin<Box<tokio::time::Sleep>>>,
 }
 #[derive(Clone, Debug)]
@@ -119,7 +123,7 @@ impl AsyncWrite for Transport {
             Some(WEv::Fail(k)) => Poll::Ready(Err(io::Error::new(KINDS[k as usize], "scripted write failure"))),
         }
     }
-    fn poll_flush(self: Pin<&mut Self>, _cx: &mut Context<'_>) -> Poll<io::Result<()>> { Poll::Ready(Ok(())) }
+    fn poll_flush(self: Pin<&mut Self>, cx: &mut Context<'_>) -> Poll<io::Result<()>> { let mut s = self.0.lock().unwrap(); s.flush_calls += 1; if s.slow_flush && s.flush_calls % 2 == 1 { cx.waker().wake_by_ref(); Poll::Pending } else { Poll::Ready(Ok(())) } }
     fn poll_shutdown(self: Pin<&mut Self>, _cx: &mut Context<'_>) -> Poll<io::Result<()>> { self.0.lock().unwrap().shut = true; Poll::Ready(Ok(())) }
 }
 
